@@ -15,6 +15,8 @@ pub trait Sc: Copy + Debug + PartialEq + PartialOrd + Send + Sync + 'static {
     fn fin(k: usize) -> Self;
     /// boundary-biased source lattice for conversion checks
     fn lattice(thorough: bool) -> Vec<Self>;
+    /// the lattice plus the values at which casts to narrower floats round (ties, double rounding)
+    fn lattice_cast(thorough: bool) -> Vec<Self> { Self::lattice(thorough) }
     fn one() -> Self;
     fn zero() -> Self;
     /// value as f64 (exact for every type but 64-bit integers beyond 2^53)
@@ -41,6 +43,15 @@ macro_rules! sc_int {
                 let _ = thorough;
                 crate::lat::int_lattice(bits, $signed).into_iter().map(|v| v as $t).collect()
             }
+            fn lattice_cast(thorough: bool) -> Vec<Self> {
+                let bits = <$t>::BITS;
+                if bits <= 16 { return Self::lattice(thorough); }
+                let mut v = crate::lat::int_lattice(bits, $signed);
+                v.extend(crate::lat::int_rounding_boundaries(bits, $signed));
+                v.sort();
+                v.dedup();
+                v.into_iter().map(|v| v as $t).collect()
+            }
             fn one() -> Self { 1 }
             fn zero() -> Self { 0 }
             fn f(self) -> f64 { self as f64 }
@@ -63,6 +74,25 @@ fn f64_boundaries() -> Vec<f64> {
             v.push(-(x - 1.0));
             v.push(x - 0.5);
             v.push(-(x - 0.5));
+        }
+    }
+    v
+}
+/// f64 values at and next to the rounding ties of f32 (normal and subnormal range): where f64 -> f32
+/// rounds to even, and where a second rounding would differ
+fn f64_f32_ties() -> Vec<f64> {
+    let mut v = vec![];
+    for k in [-149i32, -140, -127, -126, -125, -60, -1, 0, 1, 23, 24, 25, 52, 53, 54, 63, 64, 100, 126, 127] {
+        let p = (2.0f64).powi(k);
+        // half an f32 ulp above 2^k (ulp = 2^(k-23) for normal values, 2^-149 below 2^-126)
+        let h = if k >= -126 { (2.0f64).powi(k - 24) } else { (2.0f64).powi(-150) };
+        for m in [1.0f64, 3.0, 5.0] {
+            let t = p + m * h;
+            for d in [-1i64, 0, 1] {
+                let x = f64::from_bits((t.to_bits() as i64 + d) as u64);
+                v.push(x);
+                v.push(-x);
+            }
         }
     }
     v
@@ -171,6 +201,13 @@ impl Sc for f64 {
         for i in (0..crate::lat::F64_GRID_N).step_by(7) {
             v.push(crate::lat::f64_grid(i));
         }
+        let mut seen = std::collections::HashSet::new();
+        v.retain(|x| seen.insert(x.to_bits()));
+        v
+    }
+    fn lattice_cast(thorough: bool) -> Vec<Self> {
+        let mut v = Self::lattice(thorough);
+        v.extend(f64_f32_ties());
         let mut seen = std::collections::HashSet::new();
         v.retain(|x| seen.insert(x.to_bits()));
         v
